@@ -362,6 +362,8 @@ DIRECTIVES = {"mode": 1, "comments": True, "directives": True, "blank_lines": Tr
 ONELINE = {"mode": 0}
 ALLBREAKS = {"mode": 3}
 CRLFTABS = {"mode": 4, "blank_lines": True}
+CRONLY = {"mode": 5, "comments": True, "cr_comments": True}
+CRCOMMENTS = {"mode": 2, "comments": True, "cr_comments": True, "tight": True}
 REGIONS = {"mode": 1, "regions": True, "comments": True}
 REGIONS2 = {"mode": 2, "regions": True}
 
@@ -381,7 +383,7 @@ def gen_tasks(tier, cfgs, **kw):
 def c02(tier):
     build(("release",))
     c = Check("C02", tier, "model_checking")
-    tasks = program_tasks(tier, Q(tier, "six", "wide"), [PLAIN, MIXED, COMMENTS, DIRECTIVES, ONELINE, ALLBREAKS, CRLFTABS], cfg_mode="rotate", sample_every=Q(tier, 199, 1999))
+    tasks = program_tasks(tier, Q(tier, "six", "wide"), [PLAIN, MIXED, COMMENTS, DIRECTIVES, ONELINE, ALLBREAKS, CRLFTABS, CRONLY, CRCOMMENTS], cfg_mode="rotate", sample_every=Q(tier, 199, 1999))
     tasks += seed_tasks(Q(tier, "six", "wide"), sample_every=Q(tier, 97, 997))
     c.explore(tasks, "rescan", ["C02", "C13"], sample_cap=Q(tier, 150, 800))
     return c.finish(
